@@ -245,7 +245,7 @@ Proof.
     replace ((57376 <=? code) && (code <=? 57398)) with false by lia.
     assert (code < 1114112) by (unfold SNT.Encoder.FaceEnc.scalar_ok in Hs; lia).
     replace ((code <=? 4294967295) && negb ((57344 <=? code) && (code <=? 63743))) with true by lia.
-    change (SNT.Decoder.Payload.scalar_ok code) with (SNT.Encoder.FaceEnc.scalar_ok code). rewrite Hs. reflexivity.
+    rewrite Hs. reflexivity.
 Qed.
 
 Lemma mod_from_bits_small : sweep1 256 (fun m => mod_from_bits m =? m) = true.
